@@ -148,6 +148,9 @@ def main : IO Unit := do
     firstDiff s!"add_missing_data(p={p})" (cases.map fun (B, s, c) => ((B, s.dataLen, c.dataLen, s.lastTime, c.lastTime), s, c))
       (fun ((B, _), s, c) => add_missing_data s.view ⟨B, c.view, 0⟩)
       (fun ((B, _), s, c) => (catchUpPlan s c B).map fun a => (a, ()))
+  let ranges : List (Option (Nat × Nat)) := none :: (pairs [0, 5, 65535] [5, 65535, 18446744073709551615]).filterMap fun (a, b) => if a ≤ b then some (some (a, b)) else none
+  firstDiff "TimeRange::update" (pairs ranges vals64) (fun (r, t) => TimeRange_update r t)
+    (fun (r, t) => match rangeUpdate r t with | .ok r' => .ok (r', ()) | .error _ => .error (.err "TimeNotAfterLast"))
   let tss : List Nat := [0, 1, 72623859790382856, 18446744073709551615, 4294967296, 281474976710656, 65535, 4294901760]
   firstDiff "meta::write" (pairs tss ((List.range 14) ++ [67, 68, 69, 131, 132, 200]))
     (fun (ts, p) => write (le8 ts) p) (fun (ts, p) => .ok (metaWrite p ts, metaSize p))
